@@ -101,7 +101,7 @@ class Prop(common.PropertyCheck):
                 unk = [(rng.randrange(nch), rng.randrange(K))]
             yield {'k': 'beads', 'K': K, 'nch': nch, 'sizes': sizes, 'ratio': rng.uniform(2.5, 4.0), 'cv': rng.uniform(0.02, 0.05),
                    'blank': rng.random() < 0.4, 'saturate': rng.random() < 0.3, 'unknown': unk, 'stat': rng.choice(['median', 'median', 'mean']),
-                   'clust': rng.choice(['all', 'first', 'default']), 'names': rng.choice(['sorted', 'unsorted']), 'seed': rng.randrange(1 << 30), 'stream': 'main',
+                   'clust': rng.choice(['all', 'first', 'default']), 'names': rng.choice(['sorted', 'unsorted']), 'mef_form': rng.choice(['lists', 'ndarray']), 'seed': rng.randrange(1 << 30), 'stream': 'main',
                    'order': rng.choice(['shuffled', 'shuffled', 'grouped', 'grouped_desc'])}
         # fixed (seed independent) stream with strongly unequal population sizes 200..800
         fr = np.random.RandomState(20260927)
@@ -126,9 +126,16 @@ class Prop(common.PropertyCheck):
         rename = rr.permutation(K)
         true_labels = rename[tr['label']]
 
+        # the caller's MEF table: nested lists, or one 2-D float array reused across all calls of this case (unknown entries as NaN)
+        mv_arg = tr['mef_values']
+        mv_saved = None
+        if case.get('mef_form') == 'ndarray':
+            mv_arg = np.array([[np.nan if v is None else float(v) for v in l] for l in tr['mef_values']], dtype=np.float64)
+            mv_saved = mv_arg.copy()
+
         def run(clustering_fxn, data=d, seed=1):
             np.random.seed(seed)
-            return FlowCal.mef.get_transform_fxn(data, tr['mef_values'], chans, clustering_fxn=clustering_fxn, clustering_channels=clch,
+            return FlowCal.mef.get_transform_fxn(data, mv_arg, chans, clustering_fxn=clustering_fxn, clustering_channels=clch,
                                                  statistic_fxn=statf, full_output=True)
 
         def summarise(res):
@@ -195,6 +202,8 @@ class Prop(common.PropertyCheck):
             out['order_invariant'] = bool(closeb(s2c['rfi'], out['gmm']['rfi']) and s2c['mef'] == out['gmm']['mef'] and accuracy(r2c) <= 0.10)
         except Exception as e:
             out['gmm_err'] = type(e).__name__ + ':' + str(e)[:100]
+        if mv_saved is not None:
+            out['mef_table_unchanged'] = bool(np.array_equal(mv_arg, mv_saved, equal_nan=True))
         return out
 
     def post(self):
@@ -244,6 +253,8 @@ class Prop(common.PropertyCheck):
                 problems.append('not reproducible for a fixed random seed')
             if impl['partition_recovered'] and not impl['order_invariant']:
                 problems.append('outcome depends on the order of events')
+        if impl.get('mef_table_unchanged') is False:
+            problems.append("the caller's table of manufacturer values was overwritten (a later calibration with the same table would drop other subpopulations)")
         if problems:
             return 'clustering stage: %s (%s)' % ('; '.join(problems), tag)
         return None
